@@ -32,6 +32,29 @@ class Part:
         return obs
 
 
+def modelled_sources(pid):
+    """the source files the property is anchored in, with their hash now and whether it is the
+    hash recorded when the model was last validated against them (information, not a verdict:
+    the behavioural tie is the correspondence run)"""
+    import hashlib
+    out = {}
+    try:
+        props = [json.loads(l) for l in open(os.path.join(C.VERIF, "properties.jsonl"))]
+        files = [p for p in props if p["id"] == pid][0]["anchors"]["files"]
+        rec = {}
+        rp = os.path.join(C.VERIF, "modelled_sources.json")
+        if os.path.exists(rp):
+            rec = json.load(open(rp))
+        for f in files:
+            fp = os.path.join(C.REPO, f)
+            if os.path.exists(fp):
+                h = hashlib.sha256(open(fp, "rb").read()).hexdigest()[:16]
+                out[f] = {"sha256_16": h, "same_as_when_model_was_validated": rec.get(f) == h}
+    except Exception as e:
+        out["error"] = str(e)
+    return out
+
+
 def load_known():
     p = os.path.join(C.VERIF, "known_findings.json")
     if not os.path.exists(p):
@@ -285,6 +308,7 @@ def run_property(pid, tier, seed):
             rule=mod.RULE, exhaustive=getattr(mod, "EXHAUSTIVE", False),
             vm_compute_cross_checked=cov["evaluations"], proof_files=per,
             theorems=list(mod.THEOREMS)))
+        cov["modelled_sources"] = modelled_sources(pid)
         if tier == "thorough":
             chk = C.coqchk_cached(["Properties"])
             cov["coqchk"] = chk
